@@ -34,6 +34,61 @@ LATENT = {
 }
 
 
+
+def parser_entry_rule(ck, ix):
+    """Every way text reaches the definition parser (file, string, list of lines, define()) is parsed with the
+    registry's own configuration (its non_int_type), and the two entry points of DefParser are siblings."""
+    calls = {}
+    for name in ("parse_file", "parse_string"):
+        f = ix.func(TP + ".defparser", f"DefParser.{name}")
+        ck.analysed(f)
+        cs = [c for c in walk_local(f.node) if isinstance(c, ast.Call) and dotted(c.func) in ("fp.parse", "fp.parse_bytes")]
+        ck.check(len(cs) == 1, "G-TWIN", f"DefParser.{name}|one-flexparser-call", f.loc(), "delegates to flexparser once", f"{name} has {len(cs)} flexparser calls")
+        if len(cs) != 1:
+            continue
+        c = cs[0]
+        args = [norm(a) for a in c.args]
+        kw = {k.arg: norm(k.value) for k in c.keywords}
+        calls[name] = (args[1:], kw)
+        cfg_arg = args[2] if len(args) > 2 else kw.get("config")
+        ck.check(cfg_arg in ("cfg or self._default_config", "self._default_config if cfg is None else cfg", "cfg if cfg is not None else self._default_config"), "G-PROV", f"DefParser.{name}|parsed-with-registry-config", f.loc(c),
+                 "explicit config, else the registry's default config", f"{name} parses with `{cfg_arg}`: text without explicit config must be parsed with the registry's configuration (non_int_type); a fresh ParserConfig() reads numbers as float")
+    if len(calls) == 2:
+        ck.check(calls["parse_file"] == calls["parse_string"], "G-TWIN", "DefParser.parse_file/parse_string|same-parser-config-cache-options", ix.func(TP + ".defparser", "DefParser.parse_string").loc(),
+                 "files and strings are parsed with the same parser class, config, cache and options", f"parse_file and parse_string disagree: {calls['parse_file']} vs {calls['parse_string']}")
+    init = ix.func(PR, "GenericPlainRegistry.__init__")
+    dp = [c for c in walk_local(init.node) if isinstance(c, ast.Call) and call_name(c) == "DefParser"]
+    ok = len(dp) == 1 and dp[0].args and norm(dp[0].args[0]).endswith("ParserConfig(non_int_type)")
+    ck.check(bool(ok), "G-PROV", "Registry.__init__|parser-config-carries-non_int_type", init.loc(dp[0]) if dp else init.loc(), "DefParser(ParserConfig(non_int_type), ...)", "the registry's definition parser is not configured with the registry's non_int_type")
+    for q in ("GenericPlainRegistry.define", "GenericPlainRegistry.load_definitions"):
+        f = ix.func(PR, q)
+        ck.analysed(f)
+        for c in walk_local(f.node):
+            if isinstance(c, ast.Call) and call_name(c) in ("parse_string", "parse_file", "iter_parsed_project"):
+                recv = norm(c.func.value) if isinstance(c.func, ast.Attribute) else ""
+                ck.check(recv == "self._def_parser" and len(c.args) == 1 and not c.keywords, "G-PROV", f"{q}|uses-own-parser|{call_name(c)}", f.loc(c), "parsed by the registry's own parser with its default config",
+                         f"`{norm(c)}` does not go through the registry's own parser/config")
+    # ParserConfig conversion chain
+    BD = "pint.delegates.base_defparser"
+    f = ix.func(BD, "ParserConfig.to_units_container")
+    ck.analysed(f)
+    cfg = cfg_of(f)
+    gates = [n.id for n in cfg.nodes if n.kind == "test" and norm(n.ast) in ("v.scale != 1", "1 != v.scale", "not v.scale == 1")]
+    ck.check(bool(gates) and all(edge_leads_only_to_raise(cfg, g, "t") is None for g in gates), "G-DOM", "ParserConfig.to_units_container|scale-must-be-one", f.loc(), "a numeric factor in a units/dimension container raises", "to_units_container no longer rejects a container with a numeric factor (scale != 1)")
+    f = ix.func(BD, "ParserConfig.to_dimension_container")
+    ck.analysed(f)
+    defs = defs_of(f)
+    rets = [r for r in walk_local(f.node) if isinstance(r, ast.Return) and r.value is not None]
+    for r in rets:
+        roots = defs.roots(r.value)
+        ck.check("call:to_units_container" in roots and "call:to_scaled_units_container" not in roots, "G-PROV", "ParserConfig.to_dimension_container|scale-checked-container", f.loc(r), "built from the scale-checked container",
+                 f"the dimension container derives from {sorted(x for x in roots if x.startswith('call:'))}: it must come from to_units_container (which rejects numeric factors); `[area] = 2 * [length] ** 2` would load with the 2 dropped")
+    cfg = cfg_of(f)
+    g = [n.id for n in cfg.nodes if n.kind == "test" and norm(n.ast) == "invalid"]
+    ck.check(bool(g) and all(edge_leads_only_to_raise(cfg, x, "t") is None for x in g), "G-DOM", "ParserConfig.to_dimension_container|invalid-names-raise", f.loc(), "non-dimension names raise", "to_dimension_container no longer raises for names that are not [dimension] names")
+    f = ix.func(BD, "ParserConfig.to_scaled_units_container")
+    ck.check("ParserHelper.from_string(s, self.non_int_type)" in norm(f.node), "G-PROV", "ParserConfig.to_scaled_units_container|registry-numeric-type", f.loc(), "numbers read in the configured numeric type", "to_scaled_units_container no longer passes self.non_int_type")
+
 def run(ck, ix, tier):
     ck.rule("G-ERR", "error objects are raised/returned, validators check the field they name, constructors get a valid arity")
     ck.rule("G-EXH", "every case the parser can produce is handled / consumed; classifier order keeps overlapping pairs")
@@ -324,4 +379,7 @@ def run(ck, ix, tier):
     cfg = cfg_of(fn)
     t = [n.id for n in cfg.nodes if n.kind == "test" and norm(n.ast) == "not t"]
     ck.check(bool(t) and all(edge_leads_only_to_raise(cfg, x, "t") is None for x in t), "G-DOM", "solve_dependencies|cycle-raises", fn.loc(), "an empty ready set (cycle) raises ValueError", "a dependency cycle no longer raises")
+    parser_entry_rule(ck, ix)
+    from .C08 import casei_writers_rule
+    casei_writers_rule(ck, ix)  # an alias added by @alias is indexed like an inline alias
     return EXPLANATION
